@@ -1,3 +1,122 @@
-use anyhow::{bail, Result};
-pub fn replay(_vecs: &str, _out: &str) -> Result<()> { bail!("todo") }
-pub fn record(_seed: u64, _n: usize, _out: &str) -> Result<()> { bail!("todo") }
+//! C34: the test runner's `parse_test_config` (private module of wit-bindgen-test, compiled
+//! here directly from /repo/crates/test/src/config.rs) on files enumerated by TLC (replay)
+//! and on seeded random files whose observed configuration TLC re-derives (record).
+use anyhow::Result;
+use serde_json::{json, Value};
+use vcommon::*;
+
+#[allow(dead_code)]
+#[path = "/repo/crates/test/src/config.rs"]
+mod config;
+
+const MARKERS: [&str; 3] = ["//@", ";;@", "#@"];
+
+fn body_text(b: &str, variant: usize) -> &'static str {
+    match (b, variant % 2) {
+        ("argsS", 0) => " args = '--x  --y'",
+        ("argsS", _) => "args='--x\t--y '",
+        ("argsL", 0) => " args = ['--x', '--y']",
+        ("argsL", _) => "args=[\"--x\",\"--y\"]",
+        ("argsS2", 0) => " args = ' -z '",
+        ("argsS2", _) => " args = \"-z\"",
+        ("flagsS", 0) => " wasmtime-flags = '-W a'",
+        ("flagsS", _) => "wasmtime-flags='-W   a'",
+        ("flagsL", 0) => " wasmtime-flags = ['-W', 'a']",
+        ("flagsL", _) => " wasmtime-flags = [\n'-W', 'a']".split('\n').next().unwrap(), // kept single-line
+        ("bogus", _) => " unknown-key = 1",
+        ("blank", _) => "",
+        ("code", 0) => " fn main() { let args = 1; }",
+        ("code", _) => " int main(void) { return 0; }",
+        _ => panic!("unknown body {b}"),
+    }
+}
+
+fn render_line(l: &Value, marker: &str, variant: usize) -> String {
+    let ind = l["ind"].as_u64().unwrap() as usize;
+    let pre = match l["pre"].as_str().unwrap() {
+        "m" => marker.to_string(),
+        "c" => format!("{} ", &marker[..marker.len() - 1]),
+        "o" => (if marker == "//@" { ";;@" } else { "//@" }).to_string(),
+        "n" => String::new(),
+        p => panic!("unknown prefix {p}"),
+    };
+    let mut body = body_text(l["body"].as_str().unwrap(), variant).to_string();
+    if l["body"] == "flagsL" && variant % 2 == 1 {
+        body = " wasmtime-flags = ['-W','a']".to_string();
+    }
+    format!("{}{}{}", " ".repeat(ind), pre, body)
+}
+
+pub fn render(file: &Value, marker: &str, variant: usize) -> String {
+    let lines: Vec<String> = file
+        .as_array()
+        .unwrap()
+        .iter()
+        .enumerate()
+        .map(|(i, l)| render_line(l, marker, variant + i))
+        .collect();
+    let mut s = lines.join("\n");
+    if variant % 3 != 0 && !lines.is_empty() {
+        s.push('\n');
+    }
+    s
+}
+
+fn observe(text: &str, marker: &str) -> Value {
+    match catch(|| config::parse_test_config::<config::RuntimeTestConfig>(text, marker)) {
+        Err(p) => json!({"panic": p}),
+        Ok(Err(_)) => json!({"ok": false, "args": [], "flags": []}),
+        Ok(Ok(c)) => {
+            let args: Vec<String> = c.args.into();
+            let flags: Vec<String> = c.wasmtime_flags.into();
+            json!({"ok": true, "args": args, "flags": flags})
+        }
+    }
+}
+
+pub fn replay(vecs: &str, out: &str) -> Result<()> {
+    let vecs = read_ndjson(vecs)?;
+    let mut w = NdjsonWriter::create(out)?;
+    let mut runs = 0usize;
+    for (i, v) in vecs.iter().enumerate() {
+        for (mi, marker) in MARKERS.iter().enumerate() {
+            for variant in 0..2 {
+                let text = render(&v["file"], marker, variant + mi);
+                let got = observe(&text, marker);
+                runs += 1;
+                if got != v["config"] {
+                    w.write(&json!({"i": i, "file": v["file"], "text": text, "marker": marker,
+                                    "expected": v["config"], "got": got}))?;
+                }
+            }
+        }
+    }
+    w.write(&json!({"done": vecs.len(), "runs": runs}))?;
+    w.finish()
+}
+
+pub fn record(seed: u64, n: usize, out: &str) -> Result<()> {
+    let mut rng = Rng::new(seed);
+    let mut w = NdjsonWriter::create(out)?;
+    let bodies = ["argsS", "argsL", "argsS2", "flagsS", "flagsL", "bogus", "blank", "code"];
+    for k in 0..n {
+        let len = rng.below(9);
+        let lead = rng.below(4);
+        let mut file = Vec::new();
+        for i in 0..len {
+            let (ind, pre, body) = if i < lead && rng.chance(5, 6) {
+                (0, "m", *rng.pick(&bodies[..]))
+            } else {
+                let pre = *rng.pick(&["m", "m", "c", "o", "n"][..]);
+                (rng.below(2), pre, *rng.pick(&bodies[..]))
+            };
+            file.push(json!({"ind": ind, "pre": pre, "body": body}));
+        }
+        let file = Value::Array(file);
+        let marker = MARKERS[k % 3];
+        let text = render(&file, marker, rng.below(6));
+        let got = observe(&text, marker);
+        w.write(&json!({"file": file, "marker": marker, "text": text, "config": got}))?;
+    }
+    w.finish()
+}
